@@ -226,7 +226,7 @@ theorem C09_failure_atomic_any_call (h : Heap) (k : HKey) (rm extra : Bool) (g :
 F4:  `P(children=[Child(), Bad()]).observe(h, 'children.items.name')`;
 F4b: `obj.observe(h, '[name, nosuch]')`. -/
 
-def fld (n : Name) (v : Val) : Field := ⟨n, false, .val .none, v⟩
+def fld (n : Name) (v : Val) : Field := ⟨n, false, .val .none, v, .equality⟩
 
 /-- object 0: `kids = [1, 2]` (list cell 100); object 1 has trait 8 (`name`), object 2 has not. -/
 def f4Heap : Heap :=
